@@ -58,7 +58,7 @@ RULE = ("random histories (1-24 ops) of add/addN/remove(wildcards)/set/+=/-=/+ -
         "a further stream calls the Memory API directly (store.add, store.remove(pattern, graph | None), add_graph, remove_graph) "
         "interleaved with Graph calls; after every op len / list(g) / 7 wild-carded shapes / membership per graph and the store API "
         "(store.triples(pattern, None | graph) with the graphs reported per triple, len(store), store.contexts(), store.contexts(t)) "
-        "and Graph.triples_choices (a list of 0-3 terms in one rotating position) "
+        "and Graph.triples_choices (a list of 0-3 terms in one rotating position; and its whole dispatch: no / one / two / three list positions) "
         "are compared with the model (the compiled NESTED-dictionary model; pattern observations = its generator machine run to "
         "exhaustion) and with a set-of-quads + set-of-graph-keys oracle; every real generator is also replayed next() by next() "
         "on the concrete generator machine (statistics gen_exact / gen_diverge). "
